@@ -59,6 +59,15 @@ pub fn run(ctx: &Ctx) -> Outcome {
                 let fresh = init == Init::Fresh;
                 let m = SeekMachine { cfg, d, key, iv: &iv, data: &data, init: init.clone(), seeks: seeks.clone(), applies: applies.clone(), check_log: true };
                 let st = bfs::bfs(&m, &mut rep, if fresh { depth } else { depth - 1 }, cap, &|| ctx.over_cap());
+                // completeness cross-check (only when the run met nothing but the listed known findings)
+                if !st.capped && rep.violations.keys().all(|k| k.starts_with("request_beyond_limit_succeeded/after_seek_past_end") || k.starts_with("partial_")) {
+                    let model = m.model_reachable(if fresh { depth } else { depth - 1 });
+                    let found = SeekMachine::positions_of_keys(&st.keys);
+                    rep.count("model_states_cross_checked", model.len() as u64);
+                    if model != found {
+                        rep.machinery_errors.push(format!("explorer completeness cross-check failed for {} {} init {:?}: the reference model reaches {} positions, the explorer found {} (first difference: {:?})", cfg.name, d.mode, init, model.len(), found.len(), model.symmetric_difference(&found).next()));
+                    }
+                }
                 rep.count("bfs_states", st.states);
                 rep.count("bfs_transitions", st.transitions);
                 rep.count("bfs_dedup_hits", st.dedup_hits);
